@@ -97,6 +97,7 @@ from ..analysis.format_infer import (
 from ..ast.fpyast import (
     Abs,
     Add,
+    And,
     Assign,
     Cast,
     ContextStmt,
@@ -106,7 +107,9 @@ from ..ast.fpyast import (
     IfExpr,
     ListComp,
     Mul,
+    NaryOp,
     Neg,
+    Or,
     Round,
     Stmt,
     StmtBlock,
@@ -435,6 +438,17 @@ class _RoundElimInstance(DefaultTransformVisitor):
         iterables = [self._visit_expr(i, None) for i in e.iterables]
         elt = self._visit_expr(e.elt, None)
         return ListComp(targets, iterables, elt, e.loc)
+
+    def _visit_naryop(self, e: NaryOp, ctx: Any):
+        # ``and`` / ``or`` short-circuit: only the first operand is evaluated
+        # unconditionally.  A hoist out of a later one binds its operands
+        # ahead of the statement, where an operand that can fault (``xs[i]``)
+        # is then evaluated even when the operator would have skipped it.
+        if isinstance(e, (And, Or)) and e.args:
+            first = self._visit_expr(e.args[0], ctx)
+            rest = [self._visit_expr(arg, None) for arg in e.args[1:]]
+            return type(e)([first, *rest], e.loc)
+        return super()._visit_naryop(e, ctx)
 
     def _visit_if_expr(self, e: IfExpr, ctx: Any) -> IfExpr:
         # ``cond ? ift : iff``: the cond is evaluated unconditionally
